@@ -1,8 +1,25 @@
 #!/usr/bin/env python3
-"""regenerate every coq/Gen/*.v that needs only /repo's sources (no built objects)"""
-import os, sys
+"""Regenerate every coq/Gen/*.v from /repo's current tree: each checks/cNN.py that defines
+gen() returns {path under coq/: content}.  Used by setup.sh; every check also regenerates its
+own files on every run."""
+import importlib, os, sys
 HERE = os.path.dirname(os.path.abspath(__file__))
-sys.path.insert(0, HERE); sys.path.insert(0, os.path.join(os.path.dirname(HERE), "tr"))
+sys.path.insert(0, HERE); sys.path.insert(0, os.path.dirname(HERE)); sys.path.insert(0, os.path.join(os.path.dirname(HERE), "tr"))
 import vlib
-import roll_table
-vlib.write_if_changed(os.path.join(vlib.COQ, "Gen/RollTableGen.v"), roll_table.generate(vlib.REPO))
+
+def modules():
+    d = os.path.join(vlib.VERIF, "checks")
+    for f in sorted(os.listdir(d)):
+        if f.startswith("c") and f.endswith(".py") and f[1:-3].isdigit():
+            yield importlib.import_module("checks." + f[:-3])
+
+def main():
+    for m in modules():
+        g = getattr(m, "gen", None)
+        if g:
+            for path, content in g().items():
+                vlib.write_if_changed(os.path.join(vlib.COQ, path), content)
+    vlib.coq_project()
+
+if __name__ == "__main__":
+    main()
